@@ -73,6 +73,55 @@ KERNELS = [
          params=[('length', 'Int'), ('piece_length', 'Int')], ret='Int'),
     dict(name='reuseMiddle', file='torf/_reuse.py', func='is_content_match', pick=('assign', 'middle_piece_index'),
          atoms={'len(all_file_piece_indexes)': 'n'}, params=[('n', 'Int')], ret='Int'),
+    # --- random access geometry (C11)
+    dict(name='gpMaxPieceIndex', file='torf/_stream.py', func='TorrentFileStream.get_piece',
+         pick=('assign', 'max_piece_index'), params=[('torrent_size', 'Int'), ('piece_size', 'Int')], ret='Int'),
+    dict(name='gpOutOfRange', file='torf/_stream.py', func='TorrentFileStream.get_piece',
+         pick=('if-test-guarding', 'piece_index must be in range'),
+         params=[('min_piece_index', 'Int'), ('piece_index', 'Int'), ('max_piece_index', 'Int')], ret='Bool'),
+    dict(name='gpFirstByte', file='torf/_stream.py', func='TorrentFileStream.get_piece',
+         pick=('assign', 'first_byte_index_of_piece'), params=[('piece_index', 'Int'), ('piece_size', 'Int')], ret='Int'),
+    dict(name='gpLastByte', file='torf/_stream.py', func='TorrentFileStream.get_piece',
+         pick=('assign', 'last_byte_index_of_piece'),
+         params=[('first_byte_index_of_piece', 'Int'), ('piece_size', 'Int'), ('torrent_size', 'Int')], ret='Int'),
+    dict(name='gpSeekSingle', file='torf/_stream.py', func='TorrentFileStream.get_piece',
+         pick=('assign-containing', 'seek_to', 'first_byte_index_of_piece'),
+         params=[('first_byte_index_of_piece', 'Int'), ('file_pos', 'Int')], ret='Int'),
+    dict(name='gpSeekMulti', file='torf/_stream.py', func='TorrentFileStream.get_piece',
+         pick=('assign-containing', 'seek_to', '%'), atoms={'file.size': 'file_size'},
+         params=[('file_size', 'Int'), ('file_pos', 'Int'), ('piece_size', 'Int')], ret='Int'),
+    dict(name='gpLastPieceSize', file='torf/_stream.py', func='TorrentFileStream.get_piece',
+         pick=('assign-containing', 'exp_piece_size', '%'),
+         params=[('torrent_size', 'Int'), ('piece_size', 'Int')], ret='Int'),
+    dict(name='pifFirst', file='torf/_stream.py', func='TorrentFileStream.get_piece_indexes_of_file',
+         pick=('assign', 'first_piece_index'), params=[('stream_pos', 'Int'), ('piece_size', 'Int')], ret='Int'),
+    dict(name='pifLast', file='torf/_stream.py', func='TorrentFileStream.get_piece_indexes_of_file',
+         pick=('assign', 'last_piece_index'), atoms={'file.size': 'file_size'},
+         params=[('stream_pos', 'Int'), ('file_size', 'Int'), ('piece_size', 'Int')], ret='Int'),
+    dict(name='absRelMax', file='torf/_stream.py', func='TorrentFileStream.get_absolute_piece_indexes',
+         pick=('assign', 'pi_rel_max'), params=[('pi_abs_max', 'Int'), ('pi_abs_min', 'Int')], ret='Int'),
+    dict(name='absFromEnd', file='torf/_stream.py', func='TorrentFileStream.get_absolute_piece_indexes',
+         pick=('assign-containing', 'pi_rel', 'abs('), params=[('pi_rel_max', 'Int'), ('pi_rel', 'Int')], ret='Int'),
+    dict(name='absClamp', file='torf/_stream.py', func='TorrentFileStream.get_absolute_piece_indexes',
+         pick=('assign-containing', 'pi_rel', 'max('),
+         params=[('pi_rel_min', 'Int'), ('pi_rel_max', 'Int'), ('pi_rel', 'Int')], ret='Int'),
+    dict(name='absToAbs', file='torf/_stream.py', func='TorrentFileStream.get_absolute_piece_indexes',
+         pick=('assign', 'pi_abs'), params=[('pi_abs_min', 'Int'), ('pi_rel', 'Int')], ret='Int'),
+    dict(name='relMax', file='torf/_stream.py', func='TorrentFileStream.get_relative_piece_indexes',
+         pick=('assign', 'max_piece_index'), atoms={'file.size': 'file_size', 'self._torrent.piece_size': 'piece_size'},
+         params=[('file_size', 'Int'), ('piece_size', 'Int')], ret='Int'),
+    dict(name='relFromEnd', file='torf/_stream.py', func='TorrentFileStream.get_relative_piece_indexes',
+         pick=('assign-containing', 'valid_rpi', 'abs('), params=[('max_piece_index', 'Int'), ('rpi', 'Int')], ret='Int'),
+    dict(name='relClamp', file='torf/_stream.py', func='TorrentFileStream.get_relative_piece_indexes',
+         pick=('assign-containing', 'valid_rpi', 'max('),
+         params=[('min_piece_index', 'Int'), ('max_piece_index', 'Int'), ('valid_rpi', 'Int')], ret='Int'),
+    # --- the interval gate of the progress callback (C12); clock values are quantised to integers in the model
+    dict(name='intervalGate', file='torf/_generate.py', func='_IntervaledCallback.__call__',
+         pick=('if-test-guarding', 'self._prev_call_time = now'), atoms={'self._interval': 'interval'},
+         params=[('force', 'Bool'), ('diff', 'Int'), ('interval', 'Int')], ret='Bool'),
+    dict(name='intervalDiff', file='torf/_generate.py', func='_IntervaledCallback.__call__',
+         pick=('assign', 'diff'), atoms={'self._prev_call_time': 'prev'},
+         params=[('now', 'Int'), ('prev', 'Int')], ret='Int'),
 ]
 
 
@@ -192,6 +241,8 @@ class Tr:
                 if isinstance(a, ast.BinOp) and isinstance(a.op, ast.Div):
                     l, r = self.int_(a.left), self.int_(a.right)
                     return f'(({l} + {r} - 1) / {r})'
+            if f == 'abs' and len(n.args) == 1:
+                return f'((Int.natAbs {self.int_(n.args[0])} : Nat) : Int)'
             if f in ('min', 'max') and len(n.args) == 2:
                 return f'({f} {self.int_(n.args[0])} {self.int_(n.args[1])})'
             raise CannotTranslate(f'call {f}')
